@@ -231,6 +231,9 @@ MANIFEST_TEXT["C01"] = dict(
          "parents resolved against the host's span stack) are equal for programs that create explicit-root spans/events only while no "
          "span is entered (C01_partial). The full statement is false of the code — the wire format cannot express an explicit root "
          "(C01_counterexample, known finding K1, reported by the check as KNOWN-FINDING with the weakened comparison root->contextual). "
+         "C01_log_simulation assumes that no value set names a field twice; for programs that do, the code delivers the value list collapsed by "
+         "name (C01_counterexample_repeated, known finding K5), and that exact relation is proved for all programs with no distinctness "
+         "assumption (C01_log_simulation_general, C01_accepts_general, collapseVals_of_nodup). "
          "Tied to the code by running every program natively and tunnelled (real sender, serde_json, real receiver) on two StrictHosts.",
     note=_RECV_NOTE + "Also environment: the `tracing` front end at subscriber-call level (enabled before new_span/event, registration before first use, child_of(None)=new_root).",
     technique="Lean 4 proof (simulation native host vs sender∘receiver over the program's call log) + differential correspondence (native vs tunnelled)")
@@ -490,3 +493,4 @@ MANIFEST_TEXT["C19"] = dict(
     technique="Lean 4 proof (registry reference-count invariant over all interleavings, simulation against a declarative reference) + forced-schedule correspondence + free-running per-thread projection oracle")
 
 PROPS["C02"]["extra_modules"] = ["TT.Props.C02Quiescence", "TT.Props.C02GuestLevel"]
+PROPS["C01"]["extra_modules"] = ["TT.Props.C01General"]
